@@ -147,7 +147,7 @@ func newHistGen(t *rapid.T, w *sim.World) *histGen {
 		"ibtp-req", "ibtp-req", "ibtp-req", "ibtp-rcpt", "ibtp-rcpt", "ibtp-badidx", "ibtp-badproof",
 		"group", "gov-register-chain", "gov-register-service", "gov-vote", "gov-vote", "gov-vote", "gov-lifecycle",
 		"malformed", "malformed", "xvm", "badsig", "poor", "query",
-		"script", "script", "script", "mutated", "mutated",
+		"script", "script", "script", "mutated", "mutated", "ibtp-mutated",
 	}
 	return g
 }
@@ -242,6 +242,53 @@ func (g *histGen) genTx() *txSpec {
 		ib := &pb.IBTP{From: pr.from, To: pr.to, Index: idx, TimeoutHeight: T, Proof: hash, Type: pb.IBTP_INTERCHAIN}
 		s.tx = w.IBTP(pr.srcKey, ib, proof)
 		s.desc = fmt.Sprintf("%s pair%d idx=%d T=%d", kind, pi, idx, T)
+	case "ibtp-mutated":
+		// a well-formed IBTP (request or receipt, next index, proof bytes that hash to the committed value, so that it
+		// passes the early proof checks and reaches the code that parses its fields) with one or two fields replaced by a
+		// hostile value of the same type
+		pi := rapid.IntRange(0, len(g.pairs)-1).Draw(t, "pair")
+		pr := g.pairs[pi]
+		proof := []byte("1")
+		ib := &pb.IBTP{From: pr.from, To: pr.to, Index: g.reqIdx[pi] + 1, TimeoutHeight: 3, Proof: sim.ProofHash(proof), Type: pb.IBTP_INTERCHAIN}
+		sender := pr.srcKey
+		if rapid.Bool().Draw(t, "mutRcpt") {
+			ib.Index, ib.TimeoutHeight, ib.Type, sender = g.rcpIdx[pi]+1, 0, pb.IBTP_RECEIPT_SUCCESS, pr.dstKey
+		}
+		var what []string
+		for n := rapid.IntRange(1, 2).Draw(t, "mutFields"); n > 0; n-- {
+			switch f := rapid.SampledFrom([]string{"from", "from", "to", "to", "type", "index", "timeout", "group", "payload", "extra", "version"}).Draw(t, "mutField"); f {
+			case "from":
+				ib.From = rapid.SampledFrom(hostileStrings).Draw(t, "mutFrom")
+				what = append(what, fmt.Sprintf("from=%q", ib.From))
+			case "to":
+				ib.To = rapid.SampledFrom(hostileStrings).Draw(t, "mutTo")
+				what = append(what, fmt.Sprintf("to=%q", ib.To))
+			case "type":
+				ib.Type = pb.IBTP_Type(rapid.SampledFrom([]int32{4, 5, 7, 100, -1}).Draw(t, "mutType"))
+				what = append(what, fmt.Sprintf("type=%d", ib.Type))
+			case "index":
+				ib.Index = rapid.SampledFrom([]uint64{0, 1 << 63, ^uint64(0)}).Draw(t, "mutIndex")
+				what = append(what, fmt.Sprintf("index=%d", ib.Index))
+			case "timeout":
+				ib.TimeoutHeight = rapid.SampledFrom([]int64{-1, -1 << 63, 1<<63 - 1}).Draw(t, "mutT")
+				what = append(what, fmt.Sprintf("timeout=%d", ib.TimeoutHeight))
+			case "group":
+				ib.Group = &pb.StringUint64Map{Keys: []string{pr.to, "::", ""}, Vals: []uint64{ib.Index}}
+				what = append(what, "group with 3 keys and 1 value")
+			case "payload":
+				ib.Payload = rapid.SliceOfN(rapid.Byte(), 1, 40).Draw(t, "mutPayload")
+				what = append(what, "garbage payload")
+			case "extra":
+				ib.Extra = rapid.SliceOfN(rapid.Byte(), 1, 40).Draw(t, "mutExtra")
+				what = append(what, "garbage extra")
+			default:
+				ib.Version = strings.Repeat("9", 70)
+				what = append(what, "long version")
+			}
+		}
+		s.tx = w.IBTP(sender, ib, proof)
+		s.victim = true
+		s.desc = "ibtp-mutated " + strings.Join(what, " ")
 	case "ibtp-rcpt":
 		pi := rapid.IntRange(0, len(g.pairs)-1).Draw(t, "pair")
 		pr := g.pairs[pi]
